@@ -676,9 +676,11 @@ def run_random(chk, tag, seed, ndocs, per, timeout=3000):
     return rec, bad
 
 
-def run_machine(chk, tag, docs, cfgs_all, cfgsel, exprs, timeout=3000):
-    """model-level: the small-step evaluator of spec/Eval.tla refines Den on every (expression, configuration, document)
-    and keeps its stack / scoping / order invariants (no implementation involved)"""
+def run_machine(chk, tag, docs, cfgs_all, cfgsel, exprs, worlds=None, timeout=3000):
+    """the small-step evaluator of spec/Eval.tla refines Den on every (expression, configuration, document) and keeps its stack /
+    scoping / order invariants; with worlds given, every finished run of the machine is printed as a trace record (result + resolve
+    events in order) and compared with the real evaluator running under a recording hook (evaluation traces; a fingerprint like the
+    parser's step traces: differences are reported in the evidence, verdicts rest on outcomes)"""
     strings = set()
     for d in docs:
         walk_strings(d["av"], strings)
@@ -693,14 +695,31 @@ def run_machine(chk, tag, docs, cfgs_all, cfgsel, exprs, timeout=3000):
     parts = path_parts(exprs, [])
     jn = {s for s in strings if len(s) < 30}
     world = {"docs": docs, "cfgs": [cfgs_all[i] for i in cfgsel], "exprs": exprs, "floattab": floattab.table(lits | parts | jn | {"0"}),
-             "regextab": regextab({a["val"] for a in atoms_flat(exprs) if a["op"] in ("matches", "notmatches")}, strings)}
+             "regextab": regextab({a["val"] for a in atoms_flat(exprs) if a["op"] in ("matches", "notmatches")}, strings),
+             "emit": worlds is not None, "worlds": list(worlds or []), "cfgsel": list(cfgsel)}
     cfg = ('SPECIFICATION Spec\nCONSTANT WorldFile = "world.json"\nINVARIANTS Refines EnvBalanced ShortCircuit InOrder Progress\nCHECK_DEADLOCK FALSE\n')
-    r = run_tlc("Eval", cfg, sub(tag), files={"world.json": world}, timeout=timeout, want_cases=False)
+    wd = sub(tag)
+    r = run_tlc("Eval", cfg, wd, files={"world.json": world}, timeout=timeout, want_cases=worlds is not None)
     chk.add_tlc(r)
     if r.violation:
         raise Infra("the small-step evaluator model violates %s:\n%s" % (r.violation, r.out[-3000:]))
     log("%s: small-step machine: %d expressions x %d configurations x %d documents, %d states, all invariants hold" % (
         tag, len(exprs), len(cfgsel), len(docs), r.distinct))
+    if worlds is not None:
+        with open(os.path.join(wd, "cases.ndjson"), "w") as fh:
+            for c in r.cases:
+                fh.write(json.dumps(c) + "\n")
+        harness(["evtrace", "-world", os.path.join(wd, "world.json"), "-cases", os.path.join(wd, "cases.ndjson"), "-out", os.path.join(wd, "evtrace.json")])
+        res = json.load(open(os.path.join(wd, "evtrace.json")))
+        tr, oc = res.get("trace") or [], res.get("outcome") or []
+        log("%s: %d evaluation traces (%d resolve events) of the real evaluator compared with the machine: %d outcome differences, %d event-sequence differences%s" % (
+            tag, res["traces"], res["events"], len(oc), len(tr), (" e.g. %s" % json.dumps((tr + oc)[0])[:600]) if tr or oc else ""))
+        chk.cov["traces_validated_against_impl"] += res["traces"]
+        chk.notes["evaluation_traces_compared (result + hook-visible resolve events in order, Eval.tla vs real evaluator)"] = res["traces"]
+        chk.notes["evaluation_trace_differences (fingerprint, not a verdict)"] = len(tr) + len(oc)
+        if res.get("sample"):
+            chk.sample(res["sample"])
+        r.evtrace = res
     return r
 
 
